@@ -105,6 +105,12 @@ Theorem C12_attr_names_stay_unique : forall n fam sf v a, NoDup (map fst a) -> N
 Proof. exact setter_nodup. Qed.
 Print Assumptions C12_attr_names_stay_unique.
 
+(* every installed generic property of an existing (class, property) pair names the attribute of the hand-maintained
+   reference table AttrSpec.v (bound: propdefs); pairs unknown to the reference are not judged *)
+Theorem C12_propdefs_match_reference : forall x, In x propdefs -> matches_reference x = true.
+Proof. exact propdefs_match_reference. Qed.
+Print Assumptions C12_propdefs_match_reference.
+
 (* ------------------------------------------------------------------ (D) constructors (table Gen_Ctors.v) *)
 
 (* no argument is accepted and stored nowhere -- except the recorded known finding(s) in C12tab.known_dropped.
